@@ -32,7 +32,7 @@ def main():
     patch, props = args[0], args[1:]
     st = subprocess.run(["git", "-C", repo, "status", "--porcelain", "--untracked-files=no"], capture_output=True, text=True).stdout
     if st.strip():
-        print("refusing: /repo has uncommitted changes:\n" + st)
+        print("refusing: %s has uncommitted changes:\n" % repo + st)
         return 2
     r = subprocess.run(["git", "-C", repo, "apply", "--whitespace=nowarn", patch], capture_output=True, text=True)
     if r.returncode != 0:
@@ -41,13 +41,22 @@ def main():
     results = {}
     try:
         for p in props:
+            import signal
+            proc = subprocess.Popen(["/verif/check", p, "--tier", tier, "--seed", seed], stdout=subprocess.PIPE, stderr=subprocess.PIPE,
+                                    text=True, cwd="/verif", env=env, start_new_session=True)
             try:
-                c = subprocess.run(["/verif/check", p, "--tier", tier, "--seed", seed], capture_output=True, text=True, cwd="/verif", timeout=2400, env=env)
+                out, err = proc.communicate(timeout=2400)
             except subprocess.TimeoutExpired:
-                subprocess.run(["pkill", "-f", "vh worker"])
+                os.killpg(proc.pid, signal.SIGKILL)   # only this check's own process group
+                proc.wait()
                 results[p] = 99
                 print("== %s TIMEOUT" % p)
                 continue
+
+            class C:
+                pass
+            c = C()
+            c.stdout, c.stderr, c.returncode = out, err, proc.returncode
             lines = [l for l in (c.stdout + c.stderr).splitlines() if l.startswith("VIOLATION") or l.startswith("[" + p) or
                      l.startswith("  [" + p) or "too little" in l or "BUILD ERROR" in l or "machinery error" in l]
             results[p] = c.returncode
@@ -59,7 +68,7 @@ def main():
         subprocess.run(["git", "-C", repo, "checkout", "--", "."], capture_output=True)
         st = subprocess.run(["git", "-C", repo, "status", "--porcelain", "--untracked-files=no"], capture_output=True, text=True).stdout
         if st.strip():
-            print("WARNING: /repo still modified:\n" + st)
+            print("WARNING: %s still modified:\n" % repo + st)
     print("SUMMARY", " ".join("%s=%s" % (p, "CAUGHT" if rc == 1 else "missed" if rc == 0 else "error(%d)" % rc) for p, rc in results.items()))
     return 0
 
